@@ -1256,6 +1256,17 @@ def enum_iteration(ctx, probes):
             yield case(t, scope, 3, ["range:bound-names"])
         for depth in (1, 10, 100, 1000, 3000):
             yield case(RECURSION % depth, [], 1, ["recursion-depth:%d" % depth], cls="recursion")
+        # repeated doubling through context entries: n entries reach 2^n times the largest literal (no iteration needed)
+        bases = [("dtd-max", '@"P18446744073709551615DT23H59M59.999999999S"'), ("dtd-min", '-@"P18446744073709551615DT23H59M59.999999999S"'),
+                 ("ymd-max", '@"P768614336404564650Y7M"'), ("ymd-min", '-@"P768614336404564650Y7M"'), ("number-max", "9999999999999999999999999999999999 * 10**6110"),
+                 ("string", '"ab"'), ("2^62", "4611686018427387904"), ("date-max", '@"999999999-12-31"'), ("dt-max", '@"999999999-12-31T23:59:59Z"')]
+        for lab, base in bases:
+            for n in (1, 2, 8, 16, 17, 18, 20):
+                plus = "{a0: %s, %s}.a%d" % (base, ", ".join("a%d: a%d + a%d" % (i, i - 1, i - 1) for i in range(1, n + 1)), n)
+                minus = "{a0: %s, %s}.a%d" % (base, ", ".join("n%d: -a%d, a%d: a%d - n%d" % (i - 1, i - 1, i, i - 1, i - 1) for i in range(1, n + 1)), n)
+                times = "{a0: %s, %s}.a%d" % (base, ", ".join("a%d: a%d * 2" % (i, i - 1) for i in range(1, n + 1)), n)
+                for t in (plus, minus, times, "string(%s)" % plus, "(%s).days" % plus, "abs(%s)" % minus):
+                    yield case(t, [], 1, ["doubling:" + lab, "doublings:%d" % n], cls="doubling")
         return
     yield case("for i in %d..%d return i" % (M - 1, M), [], 2, ["range:ends-at-isize-max"])
     if ctx.thorough():
@@ -1298,6 +1309,7 @@ def setup(ctx):
     ctx.p_entries = mkpart(ctx, "entries")
     ctx.p_names = mkpart(ctx, "names", gen_names)
     ctx.p_iter = mkpart(ctx, "iteration")
+    ctx.p_fuzz = mkpart(ctx, "fuzz")
     ctx.max_violations = 10 ** 6 if EXPLORE else 1
 
 
@@ -1387,6 +1399,78 @@ def run(ctx):
     if want(ctx.p_uni):
         ctx.forall(ctx.p_uni, ctx.scale(8000, 400000), batch=500)
         done(ctx, "unicode")
+
+
+    if ctx.thorough() and ctx.w == 0 and not ONLY:
+        fuzz_phase(ctx)
+
+
+# scopes of the libFuzzer target fuzz/fuzz_targets/feel_any.rs (selector byte % 4), as driver bindings
+FUZZ_SCOPES = [
+    None,
+    [[["a", {"n": "1"}], ["b", {"s": "x"}], ["xs", {"l": [{"n": "1"}, {"n": "2"}]}]]],
+    [[["a b", {"n": "2"}], ["a-b", {"n": "3"}], ["a", {"n": "5"}], ["c.d", True], ["e f", {"c": [["g h", {"n": "7"}]]}]]],
+    [[["in.x", {"n": "1"}], ["for all", {"n": "2"}], ["date x", None]]],
+]
+FUZZ_ENTRIES = ["expression", "textual", "textuals", "boxed", "context", "unary", "name"]
+
+
+def fuzz_case(data):
+    """decodes a libFuzzer input of the feel_any target into a case of this module"""
+    entry = FUZZ_ENTRIES[data[0] % 7] if len(data) > 0 else "expression"
+    sel = data[1] % 4 if len(data) > 1 else 0
+    try:
+        text = data[2:].decode("utf-8")
+    except UnicodeDecodeError:
+        return None
+    return {"t": text, "es": [entry], "s": FUZZ_SCOPES[sel], "part": "fuzz", "cls": "fuzz", "labels": ["fuzz-artifact"]}
+
+
+def fuzz_phase(ctx):
+    """coverage-guided campaign on the feel_any target; every crashing input is re-judged through the driver on both builds,
+    so that known findings, hang confirmation and signatures are exactly those of the generated parts"""
+    from .. import fuzzrun
+    import glob as _glob
+    if not fuzzrun.build(ctx.log):
+        ctx.extra["fuzz"] = {"skipped": "fuzz targets could not be built (tooling), no verdict from this phase"}
+        return
+    seeds = os.path.join(fuzzrun.FUZZ, "seeds", "feel", "*")
+    # the seed files are raw texts: prefix them with the two selector bytes of the target
+    pre = os.path.join(fuzzrun.TARGET, "fuzz-seeds-feel")
+    import shutil
+    shutil.rmtree(pre, ignore_errors=True)
+    os.makedirs(pre)
+    rnd = ctx.rng("fuzz-seeds")
+    for i, f in enumerate(sorted(_glob.glob(seeds))):
+        data = open(f, "rb").read()
+        with open(os.path.join(pre, "s%05d" % i), "wb") as o:
+            o.write(bytes([rnd.randrange(7), rnd.randrange(4)]) + data)
+    all_stats = []
+    for variant, globs in (("seeded", [os.path.join(pre, "*")]), ("empty-corpus", [])):
+        stats, crashes = fuzzrun.campaign(ctx, "feel_any", PROP, globs, runs=ctx.scale(200000, 20000000) if variant == "seeded" else ctx.scale(100000, 5000000),
+                                          dict_file=os.path.join(fuzzrun.FUZZ, "feel.dict"), max_len=400, timeout_s=3 * 3600)
+        stats["variant"] = variant
+        stats["crashing_inputs"] = len(crashes)
+        all_stats.append(stats)
+        for c in crashes:
+            case = fuzz_case(c["data"])
+            if case is None:
+                continue
+            if "feel_any.rs" in c["location"]:
+                # an in-target oracle of C13 fired (scope changed / not repeatable): that is C13's subject, reported by ./check C13 --tier thorough
+                ctx.classes["fuzz: in-target C13 oracle fired (see C13)"] += 1
+                continue
+            f, resp = ctx.run_case(ctx.p_fuzz, case)
+            if f is not None:
+                ctx.report(ctx.p_fuzz.name, case, f, resp)
+            else:
+                ctx.classes["fuzz: artifact not reproduced through the driver (%s)" % c["kind"]] += 1
+            try:
+                os.remove(c["path"])
+            except OSError:
+                pass
+    shutil.rmtree(pre, ignore_errors=True)
+    ctx.extra["fuzz"] = all_stats
 
 
 if __name__ == "__main__":
